@@ -171,6 +171,29 @@ PROPS["C19"] = {
     "thorough": {"cases": 900000000, "floor": 150000000, "time_budget": 3000, "extra": _C19_EXTRA},
 }
 
+PROPS["C12"] = {
+    "worker": "c12", "variant": "chk", "level": "exploration",
+    "rule": ("case = lossless Modular image that truthfully declares modular_16bit_buffers (depth <= 12; the generator simulates every "
+             "stage in i64 and rejects images with any value outside +-(2^12-1)), written by jxlgen; 1/3 of the cases sweep (w, h) over "
+             "1..70, 120..136, 250..262 with forced horizontal / vertical / default squeeze (+RCT) so every head/body/tail branch of the "
+             "narrow SIMD kernels and the 16-row/column banding is taken; the rest are random images (all transforms, palettes, local "
+             "trees, extra channels). Rendered with default (i16, AVX2/SSE4.1 kernels) and force_wide_buffers (i32, scalar) under pool "
+             "none / rayon; every plane must be value-identical and equal the encoder truth. signature = (sweep kind, transform classes, "
+             "w mod 16 class, h mod 16 class, pool); observed set wh_mod16_cells lists the (w mod 16, h mod 16) cells covered"),
+    "assumptions": [
+        "'truthfully declares' = every value of every transform stage within +-(2^12-1), i.e. what <=12-bit samples can produce; "
+        "streams with larger (but still 16-bit) intermediate values make the narrow squeeze tendency wrap (4a-3c-b in i16) and are outside the property's stated domain",
+        "this CPU selects the AVX2 kernels; the SSE4.1 kernels are only reached under Miri (+sse4.1) in C02's thorough tier",
+        "VarDCT frames with Modular extra channels are not generated yet",
+    ],
+    "level_text": ("exploration: thousands (quick) to hundreds of thousands (thorough) of truthfully-narrow images, narrow vs wide render "
+                   "compared value for value, plus comparison with the independent encoder truth"),
+    "level_note": "trusted: jxlgen Modular encoder/model (range tracking), comparison code in c12.rs",
+    "technique": "runtime differential monitor: same stream through narrow(SIMD) and wide(scalar) decode paths + reference truth",
+    "quick": {"cases": 12000, "floor": 3000, "time_budget": 300},
+    "thorough": {"cases": 400000, "floor": 80000, "time_budget": 3000},
+}
+
 ALL = ["C%02d" % i for i in range(1, 21)]
 HOOK_COMMITS = ["27cc801"]
 NOT_APPLICABLE = {p: "check not built yet in this session (work in progress; see DESIGN.md section 9 for order)" for p in ALL if p not in PROPS}
